@@ -63,7 +63,7 @@ func init() {
 		ev.RegisterReplay(c, replay)
 	}
 	ev.Assume("alterations are made on decoded values and verified to change them; the ECDSA twin (r, n-s) of a genuine signature is exempt and never generated as an alteration")
-	ev.Assume("protected header values are strings over [A-Za-z0-9._-] and booleans, so that the verifier's re-serialization of the parsed header is the identity (the statement's own precondition)")
+	ev.Assume("the signature covers the protected header segment as transmitted (RFC 7515 section 5.2): any other text for the same header value is an altered header")
 	ev.Assume("forgeries are structural; cryptanalytic attacks are out of reach of testing")
 }
 
